@@ -57,6 +57,14 @@ def model (ws : List String) : Option String :=
     let owners := keys.map (fun k => encChars (get kle h r k).toList)
     let o := if owners.isEmpty then "-" else ",".intercalate owners
     pure s!"{encBytes (signature r)} {r.length} {o}"
+  | ["ring.rehash", _, nodes, keys] => do
+    -- Cluster.rehash builds a fresh ring from the list it is given: what came before does not matter
+    let nodes ← parseNames nodes
+    let keys ← parseNames keys
+    let r := ring kle hashCrc 20 nodes
+    let owners := keys.map (fun k => encChars (get kle hashCrc r k).toList)
+    let o := if owners.isEmpty then "-" else ",".intercalate owners
+    pure s!"{encBytes (signature r)} {r.length} {o}"
   | _ => none
 
 def verdict (ws : List String) (out : List String) : Option Bool :=
@@ -70,6 +78,14 @@ def verdict (ws : List String) (out : List String) : Option Bool :=
     pure (decNat len == some (n * nodes.length) && owners.length == keys.length &&
           (nodes.isEmpty || n == 0 || owners.all (fun o => nodes.contains o)))
   | ["ring.get", _, _, _, _], _ => pure false
+  | ["ring.rehash", _, nodes, keys], [_, len, owners] => do
+    -- after the second rehash every name is placed on a node of the second list, with the configured replica count
+    let nodes ← parseNames nodes
+    let keys ← parseNames keys
+    let owners ← parseNames owners
+    pure (decNat len == some (20 * nodes.length) && owners.length == keys.length &&
+          (nodes.isEmpty || owners.all (fun o => nodes.contains o)))
+  | ["ring.rehash", _, _, _], _ => pure false
   | _, _ => pure true
 
 end Tinode.Driver.C17
